@@ -63,11 +63,12 @@ def main():
     seeds = sorted(p for p in SEED_ROOT.iterdir() if (p / "patch.diff").exists() and (not only or p.name in only))
     groups = [(k, seeds[k::SLOTS]) for k in range(SLOTS)]
     groups[0] = (0, [None] + groups[0][1])          # the unchanged tree first: no check may alarm
-    res = json.loads(DST.read_text()) if (only and DST.exists() and not TARGET_ONLY) else {}
+    out = DST.with_name("targetsweep.json") if TARGET_ONLY else DST
+    res = json.loads(out.read_text()) if (only and out.exists()) else {}        # named seeds: merge into the existing file
     with ThreadPoolExecutor(max_workers=SLOTS) as ex:
         for r in ex.map(work, groups):
             res.update(r)
-    (DST.with_name("targetsweep.json") if TARGET_ONLY else DST).write_text(json.dumps(res, indent=1, sort_keys=True))
+    out.write_text(json.dumps(res, indent=1, sort_keys=True))
 
 
 if __name__ == "__main__":
